@@ -525,3 +525,81 @@ def f1_letters(ctx, repo):
             unk = [s for s in d["W"] | d["R"] if "?" in s]
             ok = lw == lr and not unk
             ctx.ob("F1w", f"{rel}:{owner}", f"encode codes {sorted(lw)} == decode codes {sorted(lr)}", ok, "" if ok else f"codes differ (or a layout became dynamic: {unk[:1]})")
+
+
+# ---------------------------------------------------------------------------
+# frozen OpenType layouts of the fixed-size headers (independent oracle for shared format strings)
+# ---------------------------------------------------------------------------
+# each entry: module, format name, [(size in bytes, sign: 's' signed, 'u' unsigned, '*' either/bytes)] in field order.
+# Provenance: OpenType specification 1.9 (head, hhea, vhea, maxp, post, OS/2, name, fvar, gvar, glyf header, table directory),
+# WOFF 1.0 (header, table directory entry).
+def _f(spec):
+    out = []
+    for tok in spec.split():
+        n, s = int(tok[:-1]), tok[-1]
+        out.append((n, s))
+    return out
+
+
+SPEC_LAYOUTS = [
+    ("ttLib/sfnt.py", "sfntDirectoryFormat", _f("4* 2u 2u 2u 2u")),
+    ("ttLib/sfnt.py", "sfntDirectoryEntryFormat", _f("4* 4u 4u 4u")),
+    ("ttLib/sfnt.py", "woffDirectoryFormat", _f("4* 4* 4u 2u 2u 4u 2u 2u 4u 4u 4u 4u 4u")),
+    ("ttLib/sfnt.py", "woffDirectoryEntryFormat", _f("4* 4u 4u 4u 4u")),
+    ("ttLib/sfnt.py", "ttcHeaderFormat", _f("4* 4u 4u")),
+    ("ttLib/tables/_h_e_a_d.py", "headFormat", _f("4* 4* 4u 4u 2u 2u 8* 8* 2s 2s 2s 2s 2u 2u 2s 2s 2s")),
+    ("ttLib/tables/_h_h_e_a.py", "hheaFormat", _f("4* 2s 2s 2s 2u 2s 2s 2s 2s 2s 2s 2s 2s 2s 2s 2s 2u")),
+    ("ttLib/tables/_v_h_e_a.py", "vheaFormat", _f("4* 2s 2s 2s 2u 2s 2s 2s 2s 2s 2s 2s 2s 2s 2s 2s 2u")),
+    ("ttLib/tables/_m_a_x_p.py", "maxpFormat_0_5", _f("4* 2u")),
+    ("ttLib/tables/_m_a_x_p.py", "maxpFormat_1_0_add", _f("2u " * 13)),
+    ("ttLib/tables/_p_o_s_t.py", "postFormat", _f("4* 4s 2s 2s 4u 4u 4u 4u 4u")),
+    ("ttLib/tables/O_S_2f_2.py", "OS2_format_0", _f("2u 2s 2u 2u 2u " + "2s " * 11 + "10* 4u 4u 4u 4u 4* 2u 2u 2u 2s 2s 2s 2u 2u")),
+    ("ttLib/tables/O_S_2f_2.py", "OS2_format_1", _f("2u 2s 2u 2u 2u " + "2s " * 11 + "10* 4u 4u 4u 4u 4* 2u 2u 2u 2s 2s 2s 2u 2u 4u 4u")),
+    ("ttLib/tables/O_S_2f_2.py", "OS2_format_2", _f("2u 2s 2u 2u 2u " + "2s " * 11 + "10* 4u 4u 4u 4u 4* 2u 2u 2u 2s 2s 2s 2u 2u 4u 4u 2s 2s 2u 2u 2u")),
+    ("ttLib/tables/O_S_2f_2.py", "OS2_format_5", _f("2u 2s 2u 2u 2u " + "2s " * 11 + "10* 4u 4u 4u 4u 4* 2u 2u 2u 2s 2s 2s 2u 2u 4u 4u 2s 2s 2u 2u 2u 2u 2u")),
+    ("ttLib/tables/_n_a_m_e.py", "nameRecordFormat", _f("2u 2u 2u 2u 2u 2u")),
+    ("ttLib/tables/_f_v_a_r.py", "FVAR_HEADER_FORMAT", _f("4* 2u 2u 2u 2u 2u 2u")),
+    ("ttLib/tables/_f_v_a_r.py", "FVAR_AXIS_FORMAT", _f("4* 4s 4s 4s 2u 2u")),
+    ("ttLib/tables/_f_v_a_r.py", "FVAR_INSTANCE_FORMAT", _f("2u 2u")),
+    ("ttLib/tables/_g_v_a_r.py", "GVAR_HEADER_FORMAT_HEAD", _f("2u 2u 2u 2u 4u")),
+    ("ttLib/tables/_g_l_y_f.py", "glyphHeaderFormat", _f("2s 2s 2s 2s 2s")),
+]
+SPEC_FIXED = {  # fields the spec defines as 16.16 / 2.14 fixed point
+    ("ttLib/tables/_h_e_a_d.py", "headFormat"): {"tableVersion": 16, "fontRevision": 16},
+    ("ttLib/tables/_p_o_s_t.py", "postFormat"): {"formatType": 16, "italicAngle": 16},
+    ("ttLib/tables/_f_v_a_r.py", "FVAR_AXIS_FORMAT"): {"minValue": 16, "defaultValue": 16, "maxValue": 16},
+}
+
+
+def spec_layouts(ctx, repo):
+    from ..fmt import code_range, code_size
+
+    ctx.rule("SPEC-LAY", "the shared sstruct formats of the fixed-size OpenType/WOFF headers have the field widths and signedness the specifications give (an independent reader would otherwise disagree even though pack/unpack agree with each other)", floor=20)
+    for rel, name, spec in SPEC_LAYOUTS:
+        mod = repo.mod(rel)
+        try:
+            sf = sstruct_parse(fold_module_sequence(repo, mod, name))
+        except (Unknown, ValueError) as ex:
+            raise AnalysisError(f"cannot fold {rel}:{name}: {ex}")
+        got = []
+        fs = sf.formatstring.lstrip("<>=!@")
+        import re as _re
+
+        for cnt, ch in _re.findall(r"(\d*)([a-zA-Z?])", fs):
+            if ch in "sp":
+                got.append((int(cnt or 1), "*"))
+            elif ch == "x":
+                got.append((int(cnt or 1), "*"))
+            else:
+                rng = code_range(ch)
+                got.append((code_size(ch), "s" if rng and rng[0] < 0 else "u"))
+        ok = len(got) == len(spec) and all(g[0] == s[0] and (s[1] == "*" or g[1] == s[1]) for g, s in zip(got, spec)) and sf.formatstring.startswith(">")
+        bad = [f"field {i} ({sf.names[i] if i < len(sf.names) else '?'}): {g} vs spec {s}" for i, (g, s) in enumerate(zip(got, spec)) if not (g[0] == s[0] and (s[1] == "*" or g[1] == s[1]))]
+        ctx.ob("SPEC-LAY", f"{rel}:<module>", f"{name}: {sf.formatstring} ({sf.size} bytes)", ok, "" if ok else ("; ".join(bad[:2]) or f"{len(got)} fields, spec has {len(spec)} (or not big-endian)"))
+        fx = SPEC_FIXED.get((rel, name))
+        if fx is not None:
+            ctx.ob("SPEC-LAY", f"{rel}:<module>", f"{name}: fixed-point fields {sf.fixes}", sf.fixes == fx, "" if sf.fixes == fx else f"spec: {fx}")
+    hm = repo.mod("ttLib/tables/_h_m_t_x.py")
+    c = hm.cls("table__h_m_t_x")
+    lm = try_fold(c.attrs.get("longMetricFormat")) if "longMetricFormat" in c.attrs else None
+    ctx.ob("SPEC-LAY", c.where, f"longMetricFormat = {lm!r} (uint16 advance, int16 side bearing)", lm == "Hh")
